@@ -122,3 +122,82 @@ package compose
 //@     invariant[fresh] fresh(valueList)
 //@     invariant[len] len(valueList) == $n
 //@     invariant[from] forall(i int :: 0 <= i && i < len(valueList) ==> exists(k string :: in(k, $seen) && valueList[i] == old(ch.Values[k])))
+
+// ---------------------------------------------------------------------------------------------------
+// pregel.go — any-predecessor channels (C01, C05)
+// ---------------------------------------------------------------------------------------------------
+
+//@ spec asPregel(c channel) *pregelChannel = unbox(c, "*pregelChannel")
+
+//@ func pregelChannelBuilder
+//@   props C01 C09
+//@   ensures[type] is(result, "*pregelChannel") && fresh(asPregel(result)) && fresh(asPregel(result).Values)
+//@   ensures[empty] len(asPregel(result).Values) == 0 && asPregel(result).Values != nil
+
+//@ func (*pregelChannel).load
+//@   props C05 C01
+//@   requires ch != nil && (is(c, "*pregelChannel") ==> asPregel(c) != nil)
+//@   modifies fields(ch)
+//@   ensures[view_equal] is(c, "*pregelChannel") ==> result == nil && ch.Values == asPregel(c).Values
+//@   ensures[wrong_type] !is(c, "*pregelChannel") ==> result != nil && ch.Values == old(ch.Values)
+
+//@ func (*pregelChannel).reportValues
+//@   props C01
+//@   requires ch != nil && ch.Values != nil && ins != ch.Values
+//@   modifies map(ch.Values)
+//@   ensures[noerr] result == nil
+//@   ensures[dom] forall(k string :: in(k, ch.Values) == (old(in(k, ch.Values)) || in(k, ins)))
+//@   ensures[new] forall(k string :: in(k, ins) ==> ch.Values[k] == ins[k])
+//@   ensures[keep] forall(k string :: !in(k, ins) ==> ch.Values[k] == old(ch.Values[k]))
+//@   loop 1:
+//@     modifies map(ch.Values)
+//@     invariant[dom] forall(k string :: in(k, ch.Values) == (old(in(k, ch.Values)) || in(k, $seen)))
+//@     invariant[new] forall(k string :: in(k, $seen) ==> ch.Values[k] == ins[k])
+//@     invariant[keep] forall(k string :: !in(k, $seen) ==> ch.Values[k] == old(ch.Values[k]))
+
+//@ func (*pregelChannel).get
+//@   props C01
+//@   requires ch != nil && ch.Values != nil
+//@   modifies ch.Values
+//@   ensures[empty] old(len(ch.Values)) == 0 ==> !result1 && result2 == nil && result0 == nil && ch.Values == old(ch.Values)
+//@   ensures[cleared] old(len(ch.Values)) > 0 ==> fresh(ch.Values) && len(ch.Values) == 0
+//@   ensures[ready] old(len(ch.Values)) > 0 && result2 == nil ==> result1
+//@   ensures[err_not_ready] result2 != nil ==> !result1
+//@   ensures[single] old(len(ch.Values)) == 1 ==> result2 == nil && exists(k string :: old(in(k, ch.Values)) && result0 == old(ch.Values[k]))
+//@   ensures[old_map_untouched] forall(k string :: old(in(k, ch.Values)) == in(k, old(ch.Values)))
+//@   loop 1:
+//@     modifies fresh()
+//@     invariant[fresh] fresh(values)
+//@     invariant[len] len(values) == $n
+//@     invariant[from] forall(i int :: 0 <= i && i < len(values) ==> exists(k string :: in(k, $seen) && values[i] == ch.Values[k]))
+
+//@ func (*pregelChannel).reportSkip
+//@   props C01
+//@   ensures[never] !result
+
+//@ func (*pregelChannel).reportDependencies
+//@   props C01
+
+// ---------------------------------------------------------------------------------------------------
+// graph_run.go — the run loop and its helpers (C01, C05, C06)
+// ---------------------------------------------------------------------------------------------------
+
+//@ spec taskKeyIn(k string, ts []*task, n int) bool = exists(j int :: 0 <= j && j < n && ts[j].nodeKey == k)
+
+//@ func getHitKey
+//@   props C06
+//@   requires forall(j int :: 0 <= j && j < len(tasks) ==> tasks[j] != nil)
+//@   ensures[sound] forall(i int :: 0 <= i && i < len(result) ==> inList(result[i], keys) && taskKeyIn(result[i], tasks, len(tasks)))
+//@   ensures[complete] forall(j int :: 0 <= j && j < len(tasks) && inList(tasks[j].nodeKey, keys) ==> inList(tasks[j].nodeKey, result))
+//@   ensures[fresh] result == nil || fresh(result)
+//@   loop 1:
+//@     modifies fresh()
+//@     invariant[fresh] ret == nil || fresh(ret)
+//@     invariant[sound] forall(i int :: 0 <= i && i < len(ret) ==> inList(ret[i], keys) && taskKeyIn(ret[i], tasks, $i))
+//@     invariant[complete] forall(j int :: 0 <= j && j < $i && inList(tasks[j].nodeKey, keys) ==> inList(tasks[j].nodeKey, ret))
+//@   loop 2:
+//@     modifies fresh()
+//@     invariant[fresh] ret == nil || fresh(ret)
+//@     invariant[sound] forall(i int :: 0 <= i && i < len(ret) ==> inList(ret[i], keys) && taskKeyIn(ret[i], tasks, $i_1 + 1))
+//@     invariant[complete] forall(j int :: 0 <= j && j < $i_1 && inList(tasks[j].nodeKey, keys) ==> inList(tasks[j].nodeKey, ret))
+//@     invariant[cur] (exists(m int :: 0 <= m && m < $i && keys[m] == t.nodeKey)) ==> inList(t.nodeKey, ret)
